@@ -260,8 +260,11 @@ class Mutants(Suite):
             for _ in range(per_base // 5):
                 k = rng.randint(1, 8)
                 muts.append(["corrupt", [[rng.pick(offs), rng.randrange(256)] for _ in range(k)]])
-            rng.shuffle(muts)
-            for m in must[1:] + muts[:per_base]:
+            others = [m for m in muts if m != ["none"]]
+            rng.shuffle(others)
+            # the unmodified base always runs (a reader that hangs on valid input shows here first), then the directed
+            # mutants, then a sample of the others
+            for m in [["none"]] + must[1:] + others[:per_base]:
                 cases.append({"base": base, "mut": m})
         return cases
 
